@@ -81,4 +81,9 @@ TEXTS = {
         "note": "Trusted: Lean kernel; the child-process harness; what the model cannot exhibit: allocator behaviour, aborts, hangs (observed only through the ceiling / time limit).",
         "technique": "Lean 4 theorems (dispatch characterisation, atomicity) + fault enumeration (labelled partial)",
     },
+    "C11": {
+        "level": "Lean 4 model of src/lists.rs (line splitting, Unicode trim, detect_filter_type with its four-byte second-# window, parse_filter for both formats and all rule-type options, the hosts branch and parse_hosts_style, list parsing as a per-line map, FilterListMetadata::try_add, ExpiresInterval, read_list_metadata with the byte-level cut-off loop) on top of the network rule parser model. Kernel-checked theorems, for every cosmetic parser and IDNA function: deleting any set of rejected lines anywhere leaves the parsed rule sequence unchanged; an accepted hosts entry loads exactly the rule the standard format loads for `||host^` and a well-formed entry is answered exactly like that text; NetworkOnly / CosmeticOnly / hosts lists load nothing of the other kind and All is their union; the cut-off loop ends on a character boundary and the slice equals the longest character prefix of at most 1024 bytes; every ASCII-byte offset of valid UTF-8 (what memchr returns) is a character boundary. PARTIAL for totality: panics at slicing sites and unwraps other than those are explored by a structured malformed-input stream under catch_unwind, not proved. The model is tied to the current source by the correspondence run (model vs parse_filter / NetworkFilter::parse / read_list_metadata) and list-level oracles on the real crate.",
+        "note": "Trusted: Lean kernel; the hand-written model's faithfulness is validated (not proved) by the correspondence run; cosmetic rule parser, IDNA and Unicode lower-casing are external parameters; rustc and third-party crates (regex, idna, memchr).",
+        "technique": "Lean 4 theorems (filterMap algebra for line independence; case analysis for formats / rule types; induction over UTF-8 text for char boundaries) + model/implementation correspondence check + totality stream (labelled partial)",
+    },
 }
